@@ -36,7 +36,7 @@ DomUpTo(n, k) == IF k = 0 THEN {} ELSE DomUpTo(n, k - 1) \cup RoundDom(n, k - 1)
 RoundFns(n, i) == LET p == WidthsAt(n, i)
                       w == IF p[1] = 0 THEN p[2] ELSE p[1]
                   IN  [BitStr(p[2]) -> BitStr(w)]
-FOf(n, g) == [t \in DomUpTo(n, R) |-> g[t[1] + 1][t[2]]]
+FOf(n, g) == TLCEval([t \in DomUpTo(n, R) |-> g[t[1] + 1][t[2]]])
 
 RandBits(w) == [k \in 1..w |-> RandomElement(Bit)]
 RandF(D)    == TLCEval([t \in D |-> TLCEval(RandBits(t[3]))])
@@ -54,7 +54,7 @@ LRDom    == {<<sk, r>> : sk \in [1..1 -> KA], r \in Half}
 RandHalf(s) == [k \in 1..H |-> RandomElement(IF s < 0 THEN {} ELSE Alpha)]
 (* sub-keys are taken in increasing order when the PRF graph is enumerated sub-key by sub-key *)
 NextSK(done) == CHOOSE k \in KA \ done : \A j \in KA \ done : k <= j
-GOf(gs) == [t \in LRDom |-> gs[t[1][1]][t[2]]]
+GOf(gs) == TLCEval([t \in LRDom |-> gs[t[1][1]][t[2]]])
 
 DoneNet(n, f) == [st |-> "done", n |-> n, f |-> f, T |-> EncDecTable(f, R, n)]
 DoneLR(key, g) == [st |-> "done", key |-> key, g |-> g, T |-> LRTable(g, key, 3, Msgs)]
